@@ -70,6 +70,10 @@ func Insert(id ID, data []byte) ([]byte, error) {
 	// We manually create and add the JSON as this is just simply the quickest
 	// way to do it.
 	data = bytes.TrimLeft(data, "{")
+	if bytes.Equal(bytes.TrimSpace(data), []byte("}")) {
+		// nothing to add to: the schema member alone is the object
+		return sdata, nil
+	}
 	sdata = append(bytes.TrimRight(sdata, "}"), byte(','))
 	data = append(sdata, data...)
 
